@@ -57,8 +57,9 @@ def call(fn, builtin_ids):
 
 # names beyond ASCII: letters whose case-folded form is not their lower-case form (sharp s, final sigma); the traces carry
 # the tokens, the managers see the real spellings - two case variants each with the same lower-case form
-REAL = {"w": "Ma\u00df", "W": "MA\u00df", "v": "\u03bf\u03b4\u03bf\u03c2", "V": "\u039f\u0394\u039f\u03a3"}
-TOKEN = {real.lower(): tok.lower() for tok, real in REAL.items()}
+# ("m": a plug-in NAME spelled like a method that discoverable plug-ins support - nobody is registered under it)
+REAL = {"m": "rv-a", "w": "Ma\u00df", "W": "MA\u00df", "v": "\u03bf\u03b4\u03bf\u03c2", "V": "\u039f\u0394\u039f\u03a3"}
+TOKEN = {real.lower(): tok.lower() for tok, real in REAL.items() if tok != "m"}
 assert all(REAL[t_.upper()].lower() == REAL[t_].lower() for t_ in ("w", "v"))
 
 
@@ -141,7 +142,7 @@ def extra_scenarios(tier, seed):
     rng = random.Random(seed)
     adds = [("x", 1), ("X", 2), ("y", 2), ("z", 3), ("Z", 1), ("Y", 3), ("w", 1), ("W", 2), ("V", 2), ("v", 1)]
     reqs = [("", "a"), ("", "b"), ("", "c"), ("", "s"), ("", "d"), ("external", "d"), ("", "q"), ("", "k"), ("y", "q"), ("x", "k"), ("x", "q"), ("X", "a"), ("x", "c"), ("y", "b"), ("z", "a"), ("external", "s"), ("external", "t"), ("External", "t"),
-            ("q", "a"), ("Z", "c"), ("scipy", "s"), ("SciPy", "s"), ("w", "a"), ("W", "b"), ("W", "a"), ("v", "b"), ("V", "a"), ("v", "a"), ("x", "d"), ("y", "d"), ("Z", "d")]
+            ("q", "a"), ("Z", "c"), ("scipy", "s"), ("SciPy", "s"), ("w", "a"), ("W", "b"), ("W", "a"), ("v", "b"), ("V", "a"), ("v", "a"), ("x", "d"), ("y", "d"), ("Z", "d"), ("m", "b"), ("m", "a"), ("m", "c")]
     out = []
     for _ in range(2000 if tier == "quick" else 20000):
         calls = []
